@@ -231,6 +231,7 @@ def run(prog, chk):
             chk.fail("R11.3", ob.name, "owned-builtin-not-spawned", "execute_via_builtin_in_owned_shell no longer spawns the builtin")
 
     # ---- R11.4 status collection -----------------------------------------------------------------------
+    chunk_decode_rule(prog, chk)
     chk.rule("R11.4", "wait_for_pipeline…: each waited stage pushes exactly one status before the next stage is popped; the pipefail "
                       "overwrite is control dependent on return_last_failure_from_pipeline")
     wb = prog.impl_body(WAIT_P)
@@ -269,3 +270,107 @@ def run(prog, chk):
             chk.ok("R11.4", "pipefail-gated", "a branch on options.return_last_failure_from_pipeline exists", function=WAIT_P)
         else:
             chk.fail("R11.4", WAIT_P, "pipefail-not-gated", "no branch on return_last_failure_from_pipeline")
+
+
+DECODERS = {"alloc::string::String::from_utf8_lossy": 0, "alloc::string::String::from_utf8": 0, "core::str::converts::from_utf8": 0,
+            "core::str::converts::from_utf8_unchecked": 0, "alloc::string::String::from_utf8_unchecked": 0,
+            "alloc::string::String::from_utf8_lossy_owned": 0}
+INCREMENTAL_MARKERS = ("Utf8Error::valid_up_to", "Utf8Error::error_len", "utf8_chunks", "Utf8Chunks")
+READ_METHODS = ("read", "read_buf", "try_read", "try_read_buf", "poll_read", "read_vectored", "recv")
+
+
+def _storage(b, d, op, depth=14):
+    """named locals an operand's data lives in: follow copies, borrows, slicing / deref calls through their receiver"""
+    out = set()
+    seen = set()
+    work = [op.place.local] if op.place is not None else []
+    while work and depth > 0:
+        depth -= 1
+        nxt = []
+        for l in work:
+            if l in seen:
+                continue
+            seen.add(l)
+            if b.local_name(l):
+                out.add(b.local_name(l))
+            for kind, bb, idx, node in d.of(l):
+                if kind == 'assign':
+                    rv = node.rv
+                    if rv.kind in ('use', 'cast') and rv.ops[0].place is not None:
+                        nxt.append(rv.ops[0].place.local)
+                    elif rv.kind in ('ref', 'rawptr'):
+                        nxt.append(rv.place.local)
+                elif kind == 'call':
+                    if node.args and node.args[0].place is not None:
+                        nxt.append(node.args[0].place.local)
+        work = nxt
+    return out
+
+
+def chunk_decode_rule(prog, chk):
+    """R11.5: bytes obtained from a stream are never UTF-8-decoded one read() at a time. A multi-byte character that straddles
+    two reads is invalid in each half; decoding per chunk corrupts (lossy) or rejects (strict) valid output as soon as it is
+    larger than one read. Flagged shape: inside one source loop, a read-family call fills buffer B and a UTF-8 decoder is
+    applied to B (same named storage), unless the body handles incomplete tails explicitly (valid_up_to / error_len /
+    utf8_chunks)."""
+    chk.rule("R11.5", "no UTF-8 decoding of a read buffer inside the loop that fills it (stream data is decoded once, after the last read, "
+                      "or with explicit incomplete-tail handling)")
+    nloops = 0
+    ndec = 0
+    for b in prog.all_bodies(SHIPPED):
+        decs = [(bb, t) for bb, t in b.calls() if (t.best_callee() or "") in DECODERS or (t.callee or "") in DECODERS]
+        if not decs:
+            continue
+        ndec += len(decs)
+        c = cfg_of(b)
+        d = defs_of(b)
+        fn = owner(b.name)
+        incremental = any(any(m in (t.best_callee() or "") for m in INCREMENTAL_MARKERS) for _, t in b.calls())
+        for h, blocks in c.source_loops().items():
+            reads = []
+            for bb in blocks:
+                t = b.blocks[bb].term
+                if t.kind != "call":
+                    continue
+                cal = t.best_callee() or t.callee or ""
+                last = cal.rsplit("::", 1)[-1]
+                if last in READ_METHODS and ("Read" in cal or "read" in cal.lower()) and len(t.args) >= 2:
+                    reads.append((bb, t))
+            if not reads:
+                continue
+            nloops += 1
+            for dbb, dt in decs:
+                if dbb not in blocks:
+                    continue
+                ds = _storage(b, d, dt.args[0])
+                for rbb, rt in reads:
+                    rs = set()
+                    for a in rt.args[1:]:
+                        rs |= _storage(b, d, a)
+                    shared = ds & rs
+                    if shared and not incremental:
+                        chk.fail("R11.5", fn, "per-read-utf8-decode:" + sorted(shared)[0],
+                                 "%s decodes the read buffer `%s` as UTF-8 (%s at %s) inside the loop that fills it (%s at %s): a multi-byte character "
+                                 "split across two reads is replaced or rejected although the stream is valid"
+                                 % (fn, sorted(shared)[0], (dt.best_callee() or "").rsplit("::", 1)[-1], b.loc(dt.line),
+                                    (rt.best_callee() or "").rsplit("::", 2)[-1], b.loc(rt.line)))
+                    elif shared:
+                        chk.ok("R11.5", "incremental-decoder@" + fn, "per-read decode with explicit incomplete-tail handling", function=fn)
+                    else:
+                        chk.ok("R11.5", "decode-of-assembled-record@%s" % fn,
+                               "decoder input (%s) is not the buffer the read fills (%s)" % (sorted(ds) or "?", sorted(rs) or "?"), function=fn)
+    sb = prog.impl_body("brush_core::sys::unix::async_pipe::AsyncPipeReader::read_to_string")
+    if chk.anchor("R11.5", "AsyncPipeReader::read_to_string", sb):
+        whole = [t for _, t in sb.calls() if (t.best_callee() or t.callee or "").endswith(("AsyncReadExt::read_to_string", "AsyncReadExt::read_to_end"))]
+        if whole and not c_has_source_loop(sb):
+            chk.ok("R11.5", "substitution-reader-whole-stream", "the command-substitution reader delegates to a read-to-EOF primitive (validates UTF-8 once over the whole stream)", function=sb.name)
+        elif not whole and not c_has_source_loop(sb):
+            chk.fail("R11.5", sb.name, "substitution-reader-unknown-shape", "AsyncPipeReader::read_to_string neither loops nor calls a read-to-EOF primitive: does it read the whole stream?")
+        else:
+            chk.ok("R11.5", "substitution-reader-loop", "hand-written read loop: covered by the per-loop rule above", nontrivial=False, function=sb.name)
+    chk.note("utf8_decoder_call_sites", ndec)
+    chk.note("loops_with_read_and_decode_examined", nloops)
+
+
+def c_has_source_loop(b):
+    return bool(cfg_of(b).source_loops())
